@@ -138,6 +138,11 @@ fn scen(spec: RunSpec) -> ScenFut {
         let inner = Arc::new(InMemory::new());
         let mut cfg = IngesterConfig::default();
         cfg.flush_row_count = sim::w_range(2, 8) as usize;
+        // one run in six flushes by size instead of by row count
+        if sim::w(6) == 5 {
+            cfg.flush_row_count = 1_000_000;
+            cfg.flush_size_bytes = [400usize, 2000][sim::w(2) as usize];
+        }
         cfg.flush_interval = Duration::from_secs([1u64, 5, 30][sim::w(3) as usize]);
         cfg.wal = WalConfig { wal_dir: dir.clone().into(), max_segment_size: [1usize, 1200, 2500, 1 << 20][sim::w(4) as usize], sync_mode: WalSyncMode::EveryWrite, enabled: true };
         let writers = sim::w_range(2, 4);
